@@ -53,3 +53,8 @@ pub assume_specification<T, U, F: FnOnce(T) -> U>[ Option::<T>::map_or ](o: Opti
     requires o is Some ==> f.requires((o->Some_0,)),
     ensures o is None ==> r == default, o is Some ==> f.ensures((o->Some_0,), r);
 } // verus!
+
+verus! {
+/// `a.min(b)` for the index-loop forms of zip / take (verified, not trusted)
+pub fn pv_min_usize(a: usize, b: usize) -> (r: usize) ensures r == (if a <= b { a } else { b }) { if a <= b { a } else { b } }
+} // verus!
